@@ -30,7 +30,7 @@ def run(ctx):
     #    representatives, rep > 0 = seeded choices of strings, numbers and per-field classes);
     #    key generation makes certificates expensive, they get fewer instances
     reps = {"iceserver": 6, "enum": 1, "stats": 8, "sdesc": 6, "candinit": 3, "cert": 1} if quick else \
-           {"iceserver": 120, "enum": 1, "stats": 260, "sdesc": 120, "candinit": 40, "cert": 12}
+           {"iceserver": 300, "enum": 1, "stats": 800, "sdesc": 300, "candinit": 100, "cert": 24}
     cases = []
     for v in vecs:
         fam = v["v"]["fam"]
